@@ -29,6 +29,16 @@ var AliasOps = []struct{ ID, Text string }{
 	{"outParam", "var $v *T\nsetT(&$v, $u)"},
 	{"rangeLoop", "var $v *T\nfor _, e$i := range []*T{$u} {\n\t$v = e$i\n}"},
 	{"switchType", "var $v *T\nswitch x$i := any($u).(type) {\ncase *T:\n\t$v = x$i\n}"},
+	// value-receiver method reached through a POINTER stored in an interface (synthetic (*H3).GetV wrapper)
+	{"valMethPtrIface", "var g$i GetterV = &H3{P: $u}\n$v := g$i.GetV()"},
+	{"valMethValIface", "var g$i GetterV = H3{P: $u}\n$v := g$i.GetV()"},
+	{"ptrMethIface", "var g$i GetterP = &H2{P: $u}\n$v := g$i.Get()"},
+	{"embedPromoted", "e$i := &E3{H3{P: $u}}\n$v := e$i.GetV()"},
+	{"embedPromotedIface", "var g$i GetterV = &E3{H3{P: $u}}\n$v := g$i.GetV()"},
+	{"methodValue", "f$i := (&H2{P: $u}).Get\n$v := f$i()"},
+	{"methodExpr", "f$i := (*H2).Get\n$v := f$i(&H2{P: $u})"},
+	{"deferSet", "var $v *T\nfunc() {\n\tdefer setT(&$v, $u)\n}()"},
+	{"goChan", "c$i := make(chan *T)\ngo func() { c$i <- $u }()\n$v := <-c$i"},
 }
 
 const aliasDecls = `type T struct {
@@ -37,6 +47,11 @@ const aliasDecls = `type T struct {
 }
 type H2 struct{ P *T }
 func (h *H2) Get() *T { return h.P }
+type H3 struct{ P *T }
+func (h H3) GetV() *T { return h.P }
+type E3 struct{ H3 }
+type GetterV interface{ GetV() *T }
+type GetterP interface{ Get() *T }
 func idT(p *T) *T { return p }
 func setT(d **T, p *T) { *d = p }
 var GP *T
@@ -84,7 +99,7 @@ func (p *AliasProg) Atoms() []string {
 func (p *AliasProg) Body(prefix string) string {
 	var sb strings.Builder
 	sb.WriteString(strings.NewReplacer("T struct", prefix+"T struct", "*T", "*"+prefix+"T", "H2", prefix+"H2", "idT", prefix+"idT", "setT", prefix+"setT",
-		"GP", prefix+"GP").Replace(aliasDecls))
+		"GP", prefix+"GP", "H3", prefix+"H3", "E3", prefix+"E3", "GetterV", prefix+"GetterV", "GetterP", prefix+"GetterP").Replace(aliasDecls))
 	var body []string
 	body = append(body, "a0 := rt.Mark(1, &T{})", "a1 := rt.Mark(2, &T{})")
 	vars := []string{"a0", "a1"}
@@ -102,7 +117,7 @@ func (p *AliasProg) Body(prefix string) string {
 		body = append(body, fmt.Sprintf("rt.Probe(%d, %s)", 10+i, v))
 	}
 	text := strings.NewReplacer("&T{}", "&"+prefix+"T{}", "*T", "*"+prefix+"T", "H2", prefix+"H2", "idT(", prefix+"idT(", "setT(", prefix+"setT(",
-		"GP", prefix+"GP").Replace(strings.Join(body, "\n"))
+		"GP", prefix+"GP", "H3", prefix+"H3", "E3", prefix+"E3", "GetterV", prefix+"GetterV", "GetterP", prefix+"GetterP").Replace(strings.Join(body, "\n"))
 	sb.WriteString("func " + prefix + "main() {\n" + indent(text, 1) + "\n}\n")
 	sb.WriteString("func " + prefix + "reset() {\n\t" + prefix + "GP = nil\n}\n")
 	return sb.String()
